@@ -81,6 +81,8 @@ type c16World struct {
 	rotate      int    // user dialects: how far the message list is rotated (0: heartbeat first)
 	neighbours  bool   // two ArduPilot senders (s,255) and (s+1,0) on one channel
 	manySenders int    // ArduPilot senders (distinct ids, channel 0) heard before everything else
+	seqStart    int    // sequence number of the first frame of the history ...
+	seqStep     int    // ... and how it moves from frame to frame (mod 256): a sender's counter wraps every 256 frames
 	busyApp     bool   // the application keeps the node busy with writes (to nobody) for a dozen periods
 }
 
@@ -89,8 +91,8 @@ func (w *c16World) describe() string {
 	for _, h := range w.sources {
 		s = append(s, fmt.Sprintf("(ch%d sys%d comp%d ap%d v2=%v x%d)", h.ch, h.sys, h.comp, h.autopilot, h.v2, h.repeat))
 	}
-	return fmt.Sprintf("dialect=%s version=%d heartbeat=%v period=%v type=%d autopilot=%d streamreq=%v freq=%d channels=%d outV2=%v others=%d tcpPeersOnOneEndpoint=%d timeouts=%s arduPilotSendersHeardFirst=%d applicationBusyWriting=%v sources=%s",
-		w.dialectKind, w.version, w.hbEnabled, w.period, w.sysType, w.apType, w.srEnabled, w.freq, w.nch, w.outV2, w.others, w.tcpPeers, w.timeouts, w.manySenders, w.busyApp, strings.Join(s, " "))
+	return fmt.Sprintf("dialect=%s version=%d heartbeat=%v period=%v type=%d autopilot=%d streamreq=%v freq=%d channels=%d outV2=%v others=%d tcpPeersOnOneEndpoint=%d timeouts=%s arduPilotSendersHeardFirst=%d applicationBusyWriting=%v firstSequenceNumber=%d sequenceStep=%d sources=%s",
+		w.dialectKind, w.version, w.hbEnabled, w.period, w.sysType, w.apType, w.srEnabled, w.freq, w.nch, w.outV2, w.others, w.tcpPeers, w.timeouts, w.manySenders, w.busyApp, w.seqStart, w.seqStep, strings.Join(s, " "))
 }
 
 func (w *c16World) dialect() *dialect.Dialect {
@@ -146,7 +148,7 @@ func hasStd(d *dialect.Dialect, id uint32, std message.Message) bool {
 
 func TestC16Automatic(t *testing.T) {
 	rec := evid.New(t, "C16", "generated node configurations (heartbeat on/off, period 20-80ms, system/autopilot type, dialect in {common, ardupilotmega, minimal, user dialects with version 0..255 with / without / with a fake HEARTBEAT or REQUEST_DATA_STREAM, none}, stream requests on/off, frequency 1..65535 (mostly 1..50), 1..3 channels, v1/v2 output) and histories of incoming heartbeats from generated (channel, system, component, autopilot) sources repeated several times and interleaved with other messages; oracles: heartbeats on every channel with the configured fields, status 4, dialect version, at most elapsed/period+1 of them and at least 2, none when disabled or the dialect lacks the standard message; for each distinct ArduPilot sender exactly the seven data-stream requests (1,2,3,6,10,11,12) at the configured rate addressed to it on its channel only plus one stream-requested event, nothing for other autopilots, other messages or when disabled; non-trivial = >=2 ArduPilot senders on >=2 channels plus a non-ArduPilot sender; distinct by hash of the scenario")
-	rec.Require("hb-enabled", "hb-disabled-or-missing", "sr-enabled-with-ardupilot", "sr-not-applicable", "multi-sender-multi-channel", "user-dialect", "v1-output", "several-channels-one-endpoint", "dialect-version-0", "ardupilot-sender-with-the-node's-own-ids", "more-than-1024-senders", "heartbeats-with-short-node-timeouts", "non-heartbeat-message-naming-ardupilot", "heartbeats-while-the-application-writes", "sibling-connection-of-the-same-endpoint-closed", "senders-(s,255)-and-(s+1,0)-on-one-channel", "hand-written-heartbeat-declared-in-wire-order")
+	rec.Require("hb-enabled", "hb-disabled-or-missing", "sr-enabled-with-ardupilot", "sr-not-applicable", "multi-sender-multi-channel", "user-dialect", "v1-output", "several-channels-one-endpoint", "dialect-version-0", "ardupilot-sender-with-the-node's-own-ids", "more-than-1024-senders", "heartbeats-with-short-node-timeouts", "non-heartbeat-message-naming-ardupilot", "heartbeats-while-the-application-writes", "sibling-connection-of-the-same-endpoint-closed", "senders-(s,255)-and-(s+1,0)-on-one-channel", "hand-written-heartbeat-declared-in-wire-order", "heartbeat-sequence-numbers-going-down-with-stream-requests-enabled")
 	evid.Check(t, rec, evid.N(200, 600), func(t *rapid.T) {
 		drawNodeInit(t)
 		w := &c16World{}
@@ -199,6 +201,11 @@ func TestC16Automatic(t *testing.T) {
 		if w.srEnabled && rapid.IntRange(0, 11).Draw(t, "many_senders") == 0 {
 			w.manySenders = rapid.IntRange(1025, 1100).Draw(t, "n_senders")
 		}
+		w.seqStart, w.seqStep = 0, 1
+		if rapid.Bool().Draw(t, "sequence_numbers_around_the_wrap") {
+			w.seqStart = rapid.SampledFrom([]int{250, 253, 255, 128, 1}).Draw(t, "seq_start")
+			w.seqStep = rapid.SampledFrom([]int{1, 1, 2, 255, 254, 129, 0}).Draw(t, "seq_step")
+		}
 		var cls []string
 		err := watchdog(scenarioLimit, func() error {
 			var e error
@@ -214,6 +221,9 @@ func TestC16Automatic(t *testing.T) {
 			if c == "multi-sender-multi-channel" {
 				nt = true
 			}
+		}
+		if w.srEnabled && w.seqStep >= 128 {
+			cls = append(cls, "heartbeat-sequence-numbers-going-down-with-stream-requests-enabled")
 		}
 		rec.Case(nt, evid.HashS(w.describe()), cls...)
 		if nt && rec.WantSample("scenario") {
@@ -308,7 +318,7 @@ func runC16(w *c16World) ([]string, error) {
 			// the vehicle's reported state changes from heartbeat to heartbeat (boot, calibrating, standby, active, ...): it is
 			// the same sender all along
 			hb := &minimal.MessageHeartbeat{Type: 2, Autopilot: minimal.MAV_AUTOPILOT(h.autopilot), SystemStatus: minimal.MAV_STATE((int(h.sys) + int(h.comp) + 3*r + 4) % 9), MavlinkVersion: 3}
-			f := ref.Frame{V2: h.v2, Seq: byte(k), Sys: h.sys, Comp: h.comp, ID: 0}
+			f := ref.Frame{V2: h.v2, Seq: byte(w.seqStart + k*w.seqStep), Sys: h.sys, Comp: h.comp, ID: 0}
 			f.Payload = hbLay.Encode(hb, h.v2)
 			f.Checksum = f.ChecksumFor(hbLay.CRCExtra)
 			pipes[h.ch].Feed(f.Bytes())
